@@ -26,6 +26,9 @@ CasesFor(g) == UNION { {[op |-> "spec", g |-> g]},
                        {[op |-> "bbox", g |-> g, q |-> <<g.ox + a * TsX(g), g.oy + b * TsY(g), g.ox + (a + w) * TsX(g), g.oy + (b + h) * TsY(g)>>, grow |-> 15] :
                             a \in {-2, 0, 1}, b \in {-1, 0}, w \in {1, 2}, h \in {1, 3}},
                        {[op |-> "mpoly", g |-> g, q |-> q, crs |-> "same"] : q \in QMPolys(g)},
+                       \* polygons far smaller than a pixel (the harness builds a square of side 5e-5 units around p): p strictly inside a tile, near its centre / corner
+                       {[op |-> "tinypoly", g |-> g, p |-> <<g.ox + a * TsX(g) + dx, g.oy + b * TsY(g) + dy>>] :
+                            a \in {-2, 0, 1}, b \in {-1, 0, 2}, dx \in {1, TsX(g) \div 2, TsX(g) - 1}, dy \in {1, TsY(g) - 1}},
                        {[op |-> "poly", g |-> g, q |-> q, crs |-> cm] : q \in QPolys(g), cm \in {"same", "other"}},
                        {[op |-> "sample", g |-> g, idx |-> i] : i \in {<<0, 0>>, <<2, -1>>, <<-3, 1>>}} }
 VARIABLE c
